@@ -30,6 +30,9 @@ TRUSTED = [
     "correspondence ops rd.add / rd.rsub on (delta, operand) pairs (date, naive, aware operands; in- and out-of-range fields)",
     "Generated/RDKernels.lean (Gen.fix) re-translated on every run; `Normalised` (its post-condition, theorem C16.fix_bounds) "
     "is the hypothesis under which the piecewise month carry equals the total-month formula",
+    "history of one object: Model/RDHistory.lean (`run`: a use leaves the record alone) + theorems C16.use_after_set_eq_fresh / "
+    "same_mutations_same_answer; that no method writes state outside __init__/_fix/_set_months/weeks.setter is read off the source on "
+    "every run (rdlib.write_audit -> correspondence mismatch rd.write_audit); the `weeks` setter is a hand model (rd.setweeks / rd.hist)",
     "Spec/RelativeDelta.lean is written from the class docstring (replace, total-month shift with clip, exact duration, "
     "nth weekday by search); the oracle compares the implementation with it through rd.spec",
     "CPython datetime: replace() validation, datetime + timedelta (wall-clock for aware operands, tzinfo kept, fold reset), "
@@ -49,7 +52,10 @@ ASSUMPTIONS = [
 RULE = ("seeded random (delta, operand): delta from keyword arguments (every combination of absolute fields, signed relative "
         "fields incl. multi-level carries, leapdays, yearday/nlyearday, weekday int / wd / wd(n) with n in -5..5), operand a "
         "date / naive / aware datetime biased to month ends, Feb 28/29, leap and century years, years 1 and 9999; "
-        "distinct = distinct canonical (delta fields, operand); non-trivial = the implementation returned a value")
+        "distinct = distinct canonical (delta fields, operand); non-trivial = the implementation returned a value; plus the "
+        "history of one object (use -> weeks setter / attribute assignment -> use: model on the CURRENT record after every step, fresh "
+        "clone and relativedelta(**fields) in the oracle), fractional-float deltas on the negation / subtraction / promotion path "
+        "against an expectation independent of the operators, and the yearday_366 regression stream")
 
 
 def impl_add(x, d):
@@ -84,7 +90,7 @@ def correspondence(ctx):
             reqs.append("rd.rsub %s %s" % (w, t)); exp.append(L.run(lambda: x - d, L.t_show))
         if i % 5 == 0:
             reqs.append("rd.add %s %s" % (w, t)); exp.append(L.run(lambda: d + x, L.t_show))
-    # the constructor's yearday / nlyearday conversion (used by yearday_spec_partial, nlyearday_spec, yearday366_defect)
+    # the constructor's yearday / nlyearday conversion (used by yearday_spec, nlyearday_spec, yearday366_nonleap_clips)
     reqs.append("rd.ydayidx"); exp.append("ok " + L.vlib.ilist(L.source_ydayidx() or []))
     for key in ("yearday", "nlyearday"):
         for v in list(range(-2, 370)) + [400, 10 ** 6]:
@@ -93,6 +99,18 @@ def correspondence(ctx):
                 kw["days"] = rng.randint(-40, 40)
             reqs.append("rd.mk " + L.kw_wire(kw)); exp.append(L.run(lambda: L.mkrd(kw), L.rd_wire))
             ctx.count("corr_mk_yearday")
+    # the history of one object: after use -> mutate -> use, `x + d` follows the CURRENT fields (model on the current record)
+    for site in L.write_audit():
+        ctx.mismatch("rd.write_audit", site, "a method of relativedelta writes state outside " + "/".join(L.WRITERS_ALLOWED),
+                     "model: a use leaves the record alone (RDH.step)")
+    hr = ctx.subrng("corr-history")
+    starts = []
+    while len(starts) < ctx.budget(200, 2000):
+        st = L.g_start_kw(hr)
+        if st:
+            starts.append(L.mkrd(st[1]))
+    hq, he = L.history_corr(ctx, hr, starts, 8, "corr_history")
+    reqs += hq; exp += he
     reqs, exp = L.with_generated(reqs, exp)
     got = ctx.driver(reqs)
     for q, e, g in zip(reqs, exp, got):
@@ -260,11 +278,13 @@ def oracle(ctx):
         leap = calendar.isleap(y)
         x = datetime.date(y, rng.randint(1, 12), rng.randint(1, 28))
         for nday in range(1, 367):
-            if nday == 366 and not leap:
-                continue
             ctx.case(("yearday", y, nday)); ctx.count("yearday_cases")
             res = L.run(lambda: x + relativedelta(yearday=nday), L.t_wire)
-            e = datetime.date(y, 1, 1) + datetime.timedelta(days=nday - 1)
+            if nday == 366 and not leap:
+                # no day 366 in this year: the day is clipped to the end of December (theorem yearday366_nonleap_clips)
+                e = datetime.date(y, 12, 31)
+            else:
+                e = datetime.date(y, 1, 1) + datetime.timedelta(days=nday - 1)
             if res != "ok " + L.t_wire(e):
                 ctx.violation("yearday=%d in %d gives %s, day %d of that year is %s" % (nday, y, res, nday, e),
                               {"law": "yearday", "year": y, "yearday": nday, "leap": leap, "x": L.t_wire(x), "res": res})
@@ -276,6 +296,118 @@ def oracle(ctx):
             if res != "ok " + L.t_wire(e):
                 ctx.violation("nlyearday=%d in %d gives %s, expected %s" % (nday, y, res, e),
                               {"law": "nlyearday", "year": y, "nlyearday": nday, "x": L.t_wire(x)})
+
+    # regression stream for the repaired D-C03-yearday366: the LAST day of the year through yearday=365/366 in every kind of
+    # year, on date / naive / aware operands (time of day and kind kept), together with a relative part
+    for _ in range(ctx.budget(600, 6000)):
+        y = rng.choice([4, 400, 1600, 1896, 1900, 1904, 2000, 2004, 2023, 2024, 2096, 2100, 2104, 2400, 9996, 9999,
+                        rng.randint(1, 9999)])
+        leap = calendar.isleap(y)
+        x = L.g_temporal(rng)
+        try:
+            x = x.replace(year=y)
+        except ValueError:
+            x = x.replace(year=y, day=28)
+        nday = rng.choice([366, 366, 365, 60, 59])
+        ctx.case(("yearday_366", L.t_wire(x), nday)); ctx.count("yearday_366_cases" + ("_leap" if leap else "_nonleap"))
+        res = L.run(lambda: x + relativedelta(yearday=nday), L.t_wire)
+        ed = datetime.date(y, 12, 31) if (nday == 366 and not leap) else datetime.date(y, 1, 1) + datetime.timedelta(days=nday - 1)
+        e = x.replace(year=ed.year, month=ed.month, day=ed.day)
+        if isinstance(e, datetime.datetime):
+            e = e.replace(fold=0)
+        if res != "ok " + L.t_wire(e):
+            ctx.violation("yearday=%d on %s gives %s, expected %s" % (nday, x, res, e),
+                          {"law": "yearday", "year": y, "yearday": nday, "leap": leap, "x": L.t_wire(x), "res": res})
+
+    # the history of one object (use -> mutate via the weeks setter / attribute assignment -> use again): `x + d`, `d + x`, `x - d`
+    # and every other observation must be those of a fresh object with the current fields
+    L.history_oracle(ctx, ctx.subrng("oracle-history"), L.g_start_kw, ctx.budget(500, 6000), 10, "history")
+
+    check_fractional_sub(ctx, ctx.subrng("oracle-fractional"))
+
+
+DYADIC = [0.5, -0.5, 1.5, -1.5, 0.25, 2.25, -2.75, 0.125, 10.5, -36.5, 100.75]
+
+
+def check_fractional_sub(ctx, rng):
+    """fractional (float) relative fields on the NEGATION / SUBTRACTION path (they are allowed for days..microseconds and
+    weeks; C16 covers them as values, this stream covers `x - d`, `-d` and the promotion of a date).  Expectations are
+    independent of the implementation's operators:
+      (1) -d carries exactly the negated relative fields and the same absolute fields / weekday / leapdays;
+      (2) x - d == (x moved by the negated integer years/months, absolute fields replaced, promoted to a datetime iff d
+          carries time information) - the negated timedelta(days, hours, minutes, seconds, microseconds of d) added   [dyadic fractions: exact];
+      (3) x - d == x + (-d), and (x + d) - d == x when no month arithmetic / clipping is involved."""
+    from dateutil.relativedelta import relativedelta
+    for i in range(ctx.budget(3000, 40000)):
+        kw = {}
+        dyadic = rng.random() < 0.8
+        for k in ("days", "hours", "minutes", "seconds", "microseconds", "weeks"):
+            if rng.random() < 0.45:
+                r = rng.random()
+                if r < 0.6:
+                    kw[k] = rng.choice(DYADIC) + rng.choice([0, 0, 1, -3, 7, 40])
+                elif r < 0.75 and not dyadic:
+                    kw[k] = rng.choice([0.1, -0.3, 1 / 3.0, 2.7, -19.99])
+                else:
+                    kw[k] = rng.randint(-50, 50)
+        if not any(isinstance(v, float) for v in kw.values()):
+            kw[rng.choice(["days", "hours", "minutes", "seconds", "weeks"])] = rng.choice(DYADIC)
+        if rng.random() < 0.4:
+            kw["years"] = rng.randint(-3, 3)
+        if rng.random() < 0.4:
+            kw["months"] = rng.randint(-14, 14)
+        for k, hi in (("month", 12), ("day", 28), ("hour", 23), ("minute", 59)):
+            if rng.random() < 0.12:
+                kw[k] = rng.randint(1, hi)
+        x = L.g_temporal(rng)
+        if "hour" in kw or "minute" in kw:
+            if not isinstance(x, datetime.datetime):
+                x = datetime.datetime(x.year, x.month, x.day, 7, 30)
+        case = {"law": "fractional", "kw": kw, "x": L.t_wire(x)}
+        ctx.case(("fractional", repr(sorted(kw.items())), L.t_wire(x))); ctx.count("fractional_cases")
+        bad = fractional_failure(kw, x, dyadic)
+        if bad:
+            ctx.violation("fractional delta %r, operand %s: %s" % (relativedelta(**kw), x, bad), case)
+
+
+def fractional_failure(kw, x, dyadic=True):
+    from dateutil.relativedelta import relativedelta
+    d = relativedelta(**kw)
+    try:
+        nd = -d
+    except Exception as ex:
+        return "-d raised %s" % type(ex).__name__
+    for k in L.REL:
+        want = getattr(d, k) if k == "leapdays" else -getattr(d, k)
+        if getattr(nd, k) != want:
+            return "(-d).%s = %r, expected %r" % (k, getattr(nd, k), want)
+    for k in L.ABS + ["weekday"]:
+        if getattr(nd, k) != getattr(d, k):
+            return "(-d).%s = %r, expected %r" % (k, getattr(nd, k), getattr(d, k))
+    r_sub = L.run(lambda: x - d, L.t_show)
+    r_addneg = L.run(lambda: x + nd, L.t_show)
+    if r_sub != r_addneg:
+        return "x - d = %s but x + (-d) = %s" % (r_sub, r_addneg)
+    # independent expectation
+    def expected():
+        base = x + relativedelta(years=-d.years, months=-d.months, **{k: getattr(d, k) for k in L.ABS if getattr(d, k) is not None})
+        if not isinstance(base, datetime.datetime) and has_time_info(d):
+            base = datetime.datetime.fromordinal(base.toordinal())
+        # `date + (-td)` (floored days of the NEGATED duration), which is what "move back by d" means for a date operand
+        return base + (-datetime.timedelta(days=d.days, hours=d.hours, minutes=d.minutes, seconds=d.seconds,
+                                           microseconds=d.microseconds))
+    r_exp = L.run(expected, L.t_show)
+    if dyadic and r_sub != r_exp and not (r_sub.startswith("err") and r_exp.startswith("err")):
+        return "x - d = %s, expected %s" % (r_sub, r_exp)
+    if dyadic and not d.years and not d.months and all(getattr(d, k) is None for k in L.ABS) and r_sub.startswith("ok"):
+        # pure duration: adding it back returns the operand (as a datetime when the delta carries time information)
+        back = L.run(lambda: (x - d) + d, L.t_show)
+        xx = x
+        if not isinstance(x, datetime.datetime) and has_time_info(d):
+            xx = datetime.datetime.fromordinal(x.toordinal())
+        if isinstance(x, datetime.datetime) and back != "ok " + L.t_wire(xx) and back.startswith("ok"):
+            return "(x - d) + d = %s, expected %s" % (back, L.t_wire(xx))
+    return None
 
 
 def fields_to_kw(tok):
@@ -292,22 +424,28 @@ def fields_to_kw(tok):
     return {k: v for k, v in kw.items() if v is not None}
 
 
-KNOWN = {
-    # yearday=366 in a leap year: the day is clipped to Dec 31 *before* leapdays=-1 is applied -> Dec 30
-    # tight: the class AND the observed result is exactly the one the model proves (C03.yearday366_defect: day 365 = Dec 30)
-    "D-C03-yearday366": lambda v: v["case"].get("law") == "yearday" and v["case"].get("yearday") == 366
-    and bool(v["case"].get("leap")) and v["case"].get("res") == "ok d %d 12 30 0 0 0 0" % v["case"].get("year"),
-}
+KNOWN = {}     # D-C03-yearday366 was repaired in /repo (see known_findings.d/00-fixed.json); the yearday streams above report it again
 
 
 def replay(ctx, payload):
     c = payload["violation"]["case"]
     law = c.get("law")
     from dateutil.relativedelta import relativedelta
+    if law == "history":
+        return L.replay_history(c)
+    if law == "fractional":
+        x = L.parse_t(c["x"].split())
+        bad = fractional_failure(c["kw"], x)
+        print("delta=%r x=%s: %s" % (relativedelta(**c["kw"]), x, bad or "holds"))
+        return bad is None
     if law == "yearday":
         x = L.parse_t(c["x"].split())
         res = x + relativedelta(yearday=c["yearday"])
-        e = datetime.date(c["year"], 1, 1) + datetime.timedelta(days=c["yearday"] - 1)
+        if c["yearday"] == 366 and not calendar.isleap(c["year"]):
+            ed = datetime.date(c["year"], 12, 31)
+        else:
+            ed = datetime.date(c["year"], 1, 1) + datetime.timedelta(days=c["yearday"] - 1)
+        e = x.replace(year=ed.year, month=ed.month, day=ed.day)
         print("%s + relativedelta(yearday=%d) = %s; day %d of the year is %s" % (x, c["yearday"], res, c["yearday"], e))
         return res == e
     if law == "nlyearday":
